@@ -274,6 +274,13 @@ def check_species(case, ctx):
     if plain:
         ctx.close('C01.species/G=H-TS', v['G'], v['H'] - v['S'], rtol=1e-12, atol=1e-11 * sc)
         ctx.close('C01.species/F=U-TS', v['F'], v['U'] - v['S'], rtol=1e-12, atol=1e-11 * sc)
+        # the same identities when entropies are taken relative to the elements (S_elements=True moves S, F and G together)
+        se = {q: float(getattr(sm, GET[q])(S_elements=True, **kw)) for q in ('S', 'F', 'G')}
+        ctx.close('C01.species/G=H-TS:S_elements', se['G'], v['H'] - se['S'], rtol=1e-12, atol=1e-11 * (sc + abs(se['S'])))
+        ctx.close('C01.species/F=U-TS:S_elements', se['F'], v['U'] - se['S'], rtol=1e-12, atol=1e-11 * (sc + abs(se['S'])))
+        from pmutt import constants as c_
+        s_el = sum(c_.S_elements[e_] * n_ for e_, n_ in case['elements'].items())    # (table is in units of R)
+        ctx.close('C01.species/S_elements-shift', v['S'] - se['S'], s_el, rtol=1e-9, atol=1e-11 * (sc + abs(s_el)))
         # (the reference adjustment is an enthalpy/Gibbs offset by design - C10 - so H-U is taken without it)
         kw0 = dict(kw, use_references=False)
         ctx.close('C01.species/H-U', float(sm.get_HoRT(**kw0)) - float(sm.get_UoRT(**kw0)), 1.0 if has_trans else 0.0,
@@ -537,6 +544,12 @@ def check_extra(case, ctx):
     ctx.close('C01.extra/GroundStateElec:q(D0)', qa, qb, rtol=1e-12)
     if a.get_q(T=T) != 1.0:
         ctx.fail('C01.extra/GroundStateElec:q-ignored-by-default', repr(a.get_q(T=T)))
+    # documented default of free translation: three degrees of freedom
+    from pmutt.statmech.trans import FreeTrans
+    mw_ = 2.0 + 10.0 * case['D0']
+    ctx.close('C01.extra/FreeTrans:default-n_degrees', FreeTrans(molecular_weight=mw_).get_SoR(T=T, P=1.0),
+              FreeTrans(n_degrees=3, molecular_weight=mw_).get_SoR(T=T, P=1.0), rtol=0)
+    ctx.close('C01.extra/FreeTrans:default-n_degrees', FreeTrans(molecular_weight=mw_).get_CvoR(), 1.5, rtol=0)
     # documented default spin: 0 (singlet, no electronic entropy)
     d = GroundStateElec(potentialenergy=case['E'])
     if d.get_SoR() != 0:
